@@ -89,6 +89,10 @@ func (s *c16Store) before(ctx context.Context, op c16Op) error {
 	if !s.rec {
 		return nil
 	}
+	if strings.HasPrefix(op.key, "acme/") {
+		// the ACME validation engine polls storage from its own goroutine; it is not part of any request under test
+		return nil
+	}
 	if s.dead {
 		return s.errInj
 	}
@@ -152,6 +156,7 @@ func (s *c16Store) Delete(ctx context.Context, key string) error {
 
 type c16Issuer struct {
 	ord  int
+	ref  string // what request paths use: the issuer name (generated roots) or the issuer id (imported CAs)
 	name string
 	id   string
 	cert *x509.Certificate
@@ -186,6 +191,7 @@ type c16Env struct {
 	nstamps int
 	crlIDs  map[string]int // crl id -> issuer ordinal
 	mnow    int64
+	nextSerial int64
 	lines   []c16Line
 	anomaly string
 }
@@ -508,6 +514,8 @@ func c16ErrClass(resp *logical.Response, err error) string {
 		return "err:notfound"
 	case strings.Contains(msg, "unable to verify signature on presented cert"):
 		return "err:nosigner"
+	case strings.Contains(msg, "to its own CRL is not allowed"):
+		return "err:isissuer"
 	case strings.Contains(msg, "unable to find PKI issuer") || strings.Contains(msg, "unable to fetch corresponding key"):
 		return "err:noissuer"
 	}
@@ -526,7 +534,7 @@ func (e *c16Env) addIssuer() {
 		e.emit(ec, "addissuer")
 		return
 	}
-	is := &c16Issuer{ord: n, name: name, live: true}
+	is := &c16Issuer{ord: n, name: name, ref: name, live: true}
 	is.id = fmt.Sprint(resp.Data["issuer_id"])
 	blk, _ := pem.Decode([]byte(resp.Data["certificate"].(string)))
 	is.cert, err = x509.ParseCertificate(blk.Bytes)
@@ -552,7 +560,11 @@ func (e *c16Env) addIssuer() {
 
 func (e *c16Env) delIssuer(i int) {
 	e.store.arm(0, -1)
-	resp, err := e.req(logical.DeleteOperation, "issuer/i"+strconv.Itoa(i), nil)
+	ref := "i" + strconv.Itoa(i)
+	if i >= 1 && i <= len(e.issuers) {
+		ref = e.issuers[i-1].ref
+	}
+	resp, err := e.req(logical.DeleteOperation, "issuer/"+ref, nil)
 	ops := e.store.disarm()
 	if ec := c16ErrClass(resp, err); ec != "" {
 		e.emit(ec, "delissuer", strconv.Itoa(i))
@@ -573,7 +585,11 @@ func (e *c16Env) register(c *c16Cert) {
 func (e *c16Env) issue(i int, class string) {
 	ttl := map[string]string{"L": "1h", "S": "1s", "M": "4s"}[class]
 	mttl := map[string]int64{"L": 3600, "S": 1, "M": 4}[class]
-	resp, err := e.req(logical.UpdateOperation, "issuer/i"+strconv.Itoa(i)+"/issue/r", map[string]any{"common_name": "leaf.example.com", "ttl": ttl})
+	ref := "i" + strconv.Itoa(i)
+	if i >= 1 && i <= len(e.issuers) {
+		ref = e.issuers[i-1].ref
+	}
+	resp, err := e.req(logical.UpdateOperation, "issuer/"+ref+"/issue/r", map[string]any{"common_name": "leaf.example.com", "ttl": ttl})
 	if ec := c16ErrClass(resp, err); ec != "" {
 		e.emit(ec, "issue", strconv.Itoa(i), class)
 		return
@@ -588,10 +604,12 @@ func (e *c16Env) issue(i int, class string) {
 	e.emit("ok:#"+strconv.Itoa(c.ord), "issue", strconv.Itoa(i), class)
 }
 
-// craft signs, outside the mount, an already expired leaf with issuer i's key (issuer may have been deleted since).
-func (e *c16Env) craft(i int) {
+// craft signs, outside the mount, a leaf with issuer i's key (the issuer may have been deleted since): class X is
+// already expired, class V is valid for an hour.  Serial numbers are CHOSEN, openssl style: 0x1001, 0x1002, ...
+func (e *c16Env) craft(i int, class string) {
+	fields := []string{"craft", strconv.Itoa(i), class}
 	if i < 1 || i > len(e.issuers) {
-		e.emit("err:noissuer", "craft", strconv.Itoa(i))
+		e.emit("err:noissuer", fields...)
 		return
 	}
 	is := e.issuers[i-1]
@@ -599,24 +617,90 @@ func (e *c16Env) craft(i int) {
 	if err != nil {
 		e.t.Fatal(err)
 	}
-	sn, _ := rand.Int(rand.Reader, new(big.Int).Lsh(big.NewInt(1), 150))
-	sn.SetBit(sn, 151, 1)
+	e.nextSerial++
+	sn := big.NewInt(0x1000 + e.nextSerial)
 	now := time.Now()
 	tmpl := &x509.Certificate{
 		SerialNumber: sn, Subject: pkix.Name{CommonName: "crafted.example.com"},
 		NotBefore: now.Add(-2 * time.Hour), NotAfter: now.Add(-1 * time.Hour),
 		KeyUsage: x509.KeyUsageDigitalSignature, ExtKeyUsage: []x509.ExtKeyUsage{x509.ExtKeyUsageServerAuth},
 	}
+	c := &c16Cert{issuer: i, class: class, mNotAfter: e.mnow - 3600}
+	if class == "V" {
+		tmpl.NotAfter = now.Add(time.Hour)
+		c.mNotAfter = e.mnow + 3600
+	}
 	der, err := x509.CreateCertificate(rand.Reader, tmpl, is.cert, &key.PublicKey, is.key)
 	if err != nil {
 		e.t.Fatal(err)
 	}
-	c := &c16Cert{issuer: i, class: "X", mNotAfter: e.mnow - 3600}
 	c.cert, _ = x509.ParseCertificate(der)
 	c.serial = serialFromCert(c.cert)
 	c.pem = string(pem.EncodeToMemory(&pem.Block{Type: "CERTIFICATE", Bytes: der}))
 	e.register(c)
-	e.emit("ok:#"+strconv.Itoa(c.ord), "craft", strconv.Itoa(i))
+	e.emit("ok:#"+strconv.Itoa(c.ord), fields...)
+}
+
+// importIssuer builds, outside the mount, a self-signed CA certificate with its own key and imports it with
+// issuers/import/bundle.  col = 0: a fresh serial number; col = k: the CA's own certificate carries the serial
+// number of certificate #k (what an external parent with its own serial counter may well hand out).
+func (e *c16Env) importIssuer(col int) {
+	fields := []string{"importissuer", strconv.Itoa(col)}
+	if col < 0 || col > len(e.certs) {
+		e.emit("bad-op", fields...)
+		return
+	}
+	n := len(e.issuers) + 1
+	key, err := ecdsa.GenerateKey(elliptic.P256(), rand.Reader)
+	if err != nil {
+		e.t.Fatal(err)
+	}
+	var sn *big.Int
+	if col > 0 {
+		sn = new(big.Int).Set(e.certs[col-1].cert.SerialNumber)
+	} else {
+		e.nextSerial++
+		sn = big.NewInt(0x7000000 + e.nextSerial)
+	}
+	now := time.Now()
+	tmpl := &x509.Certificate{
+		SerialNumber: sn, Subject: pkix.Name{CommonName: "root" + strconv.Itoa(n)},
+		NotBefore: now.Add(-time.Hour), NotAfter: now.Add(40 * time.Hour),
+		KeyUsage: x509.KeyUsageCertSign | x509.KeyUsageCRLSign | x509.KeyUsageDigitalSignature,
+		IsCA:     true, BasicConstraintsValid: true,
+	}
+	der, err := x509.CreateCertificate(rand.Reader, tmpl, tmpl, &key.PublicKey, key)
+	if err != nil {
+		e.t.Fatal(err)
+	}
+	kder, err := x509.MarshalECPrivateKey(key)
+	if err != nil {
+		e.t.Fatal(err)
+	}
+	bundle := string(pem.EncodeToMemory(&pem.Block{Type: "CERTIFICATE", Bytes: der})) +
+		string(pem.EncodeToMemory(&pem.Block{Type: "EC PRIVATE KEY", Bytes: kder}))
+	e.store.arm(0, -1)
+	resp, rerr := e.req(logical.UpdateOperation, "issuers/import/bundle", map[string]any{"pem_bundle": bundle})
+	ops := e.store.disarm()
+	if ec := c16ErrClass(resp, rerr); ec != "" {
+		e.emit(ec, fields...)
+		return
+	}
+	ids, _ := resp.Data["imported_issuers"].([]string)
+	if len(ids) != 1 {
+		e.emit("err:import:"+strconv.Itoa(len(ids)), fields...)
+		return
+	}
+	is := &c16Issuer{ord: n, name: "", ref: ids[0], id: ids[0], key: key, live: true}
+	is.cert, _ = x509.ParseCertificate(der)
+	e.issuers = append(e.issuers, is)
+	if len(e.issuers) == 1 {
+		if _, err := e.req(logical.UpdateOperation, "roles/r", map[string]any{"allow_any_name": true, "ttl": "1h", "max_ttl": "2h", "key_type": "ec", "key_bits": 256}); err != nil {
+			e.t.Fatal(err)
+		}
+	}
+	// the tokens of the import are rendered only now that the new issuer is known to the environment
+	e.emit(fmt.Sprintf("ok:i%d w=%s", n, c16Join(c16Canon(e.tokens(ops)))), fields...)
 }
 
 // cut: "" none; "fault" (n-th storage op fails once); "crash" (storage dies after j effective writes, restart)
@@ -805,7 +889,7 @@ func (e *c16Env) obs() {
 		if !is.live {
 			continue
 		}
-		resp, err := e.req(logical.ReadOperation, "issuer/"+is.name+"/crl/der", nil)
+		resp, err := e.req(logical.ReadOperation, "issuer/"+is.ref+"/crl/der", nil)
 		d := "none"
 		if err != nil {
 			d = "none"
@@ -986,7 +1070,11 @@ func (g *c16Gen) next() c16Step {
 			}
 			g.nCerts++
 			g.crafted = append(g.crafted, g.nCerts)
-			return c16Step{op: "craft", a: strconv.Itoa(1 + r.Intn(g.nIssuers))}
+			cls := "X"
+			if r.Chance(50) {
+				cls = "V"
+			}
+			return c16Step{op: "craft", a: strconv.Itoa(1 + r.Intn(g.nIssuers)), b: cls}
 		case x < 58: // revoke
 			if g.nCerts == 0 {
 				continue
@@ -1027,6 +1115,17 @@ func (g *c16Gen) next() c16Step {
 			}
 			g.nIssuers++
 			g.live = append(g.live, g.nIssuers)
+			if r.Chance(45) {
+				// an externally built CA; half of the time its own serial collides with a certificate, preferably a revoked one
+				col := 0
+				if g.nCerts > 0 && r.Chance(55) {
+					col = 1 + r.Intn(g.nCerts)
+					for tries := 0; tries < 4 && !g.revoked[col]; tries++ {
+						col = 1 + r.Intn(g.nCerts)
+					}
+				}
+				return c16Step{op: "importissuer", a: strconv.Itoa(col)}
+			}
 			return c16Step{op: "addissuer"}
 		case x < 92:
 			if g.nIssuers == 0 {
@@ -1062,7 +1161,9 @@ func (e *c16Env) apply(s c16Step) {
 	case "issue":
 		e.issue(atoi(s.a), s.b)
 	case "craft":
-		e.craft(atoi(s.a))
+		e.craft(atoi(s.a), s.b)
+	case "importissuer":
+		e.importIssuer(atoi(s.a))
 	case "revoke":
 		e.revoke(atoi(s.a), s.b, c16Cut{})
 	case "rotate":
@@ -1169,6 +1270,62 @@ func TestVerifC16(t *testing.T) {
 				if e.anomaly != "" {
 					return
 				}
+			}
+		})
+	}
+
+	// stream 1b (directed): a leaf of issuer A — minted by the mount or externally with a chosen serial — is revoked; LATER
+	// a CA whose own certificate carries the same serial number (or, as a control, a fresh one) is imported; every
+	// rebuild afterwards (the import's own, rotate, another revoke, tidy, deleting the CA again) must keep listing the leaf
+	nCol := vh.EnvInt("C16_COLLIDE", 24)
+	if thorough {
+		nCol = vh.EnvInt("C16_COLLIDE", 200)
+	}
+	for i := 0; i < nCol; i++ {
+		r := rng.Fork(uint64(2000000 + i))
+		var steps []c16Step
+		if r.Chance(50) {
+			steps = append(steps, c16Step{op: "addissuer"})
+		} else {
+			steps = append(steps, c16Step{op: "importissuer", a: "0"})
+		}
+		if r.Chance(40) {
+			steps = append(steps, c16Step{op: "addissuer"})
+		}
+		nLeaf := 1 + r.Intn(3)
+		for l := 0; l < nLeaf; l++ {
+			if r.Chance(50) {
+				steps = append(steps, c16Step{op: "craft", a: "1", b: "V"})
+			} else {
+				steps = append(steps, c16Step{op: "issue", a: "1", b: "L"})
+			}
+		}
+		target := 1 + r.Intn(nLeaf)
+		steps = append(steps, c16Step{op: "revoke", a: strconv.Itoa(target), b: "cert"})
+		if r.Chance(30) {
+			steps = append(steps, c16Step{op: "config", a: c16B(r.Bool()), b: "-", c: "-"})
+		}
+		col := target
+		if i%4 == 3 {
+			col = 0 // control: no collision
+		}
+		nIss := 2
+		if len(steps) > 1 && steps[1].op == "addissuer" {
+			nIss = 3
+		}
+		steps = append(steps, c16Step{op: "importissuer", a: strconv.Itoa(col)})
+		tail := []c16Step{{op: "rotate"}, {op: "revoke", a: strconv.Itoa(1 + r.Intn(nLeaf)), b: "cert"}, {op: "tidy", a: "1", b: "1", c: "1"},
+			{op: "revoke", a: strconv.Itoa(target), b: "serial"}, {op: "restart"}, {op: "config", a: "0", b: "-", c: "-"},
+			{op: "delissuer", a: strconv.Itoa(nIss)}, {op: "rotate"}, {op: "revoke", a: strconv.Itoa(target), b: "serial"}}
+		for _, t := range tail {
+			if r.Chance(70) {
+				steps = append(steps, t)
+			}
+		}
+		steps = append(steps, c16Step{op: "rotate"})
+		cases = append(cases, func(e *c16Env) {
+			for _, s := range steps {
+				e.apply(s)
 			}
 		})
 	}
